@@ -695,16 +695,19 @@ impl<T: PPGEvaluatorStrategy> PPGEvaluator<T> {
             }
         }
 
+        // keep = none of the outputs of this (historical) job is now produced
+        // by a job of a different name.
+        // (multi_parts_to_jobs is keyed by the individual outputs, so we
+        // have to look at the parts, not the full job_id)
         let filter_if_renamed = |job_id: &str| -> bool {
-            if job_id.contains(":::") {
-                let last_time = multi_parts_to_jobs.get(job_id);
-                match last_time {
-                    Some(last_time) => last_time == job_id,
-                    None => true, //not present.
+            for part in job_id.split(":::") {
+                if let Some(current_job_id) = multi_parts_to_jobs.get(part) {
+                    if current_job_id != job_id {
+                        return false;
+                    }
                 }
-            } else {
-                return true;
             }
+            true
         };
 
         let mut out = self.history.clone();
@@ -720,11 +723,18 @@ impl<T: PPGEvaluatorStrategy> PPGEvaluator<T> {
                             (Some(node_idx_a), Some(node_idx_b)) => {
                                 self.dag.edge_weight(*node_idx_a, *node_idx_b).is_some()
                             }
-                            _ => {
+                            (None, Some(node_idx_b)) => {
                                 //if it's from a multi-output job that was producing different
-                                //stuff before,
-                                filter_if_renamed(job_id_a)
+                                //stuff before, it is only needed until the downstream has
+                                //recorded what it consumed from the renamed job.
+                                //(it's what edge_invalidated falls back on)
+                                let b = &self.jobs[*node_idx_b];
+                                let b_recorded = b.history_output.is_some()
+                                    || b.state
+                                        == JobState::Ephemeral(JobStateEphemeral::FinishedSkipped);
+                                filter_if_renamed(job_id_a) || !b_recorded
                             }
+                            _ => filter_if_renamed(job_id_a),
                         }
                     } else {
                         // a node uplink entry.
